@@ -10,6 +10,7 @@ import (
 	"errors"
 	"fmt"
 	"math"
+	"strings"
 	"time"
 
 	"github.com/pion/interceptor"
@@ -53,8 +54,17 @@ type sent struct {
 // recordingPacer forwards like the no-op pacer and records the rates it is told.
 type recordingPacer struct {
 	*gcc.NoOpPacer
-	rates []int
+	rates    []int
+	closeErr error
 }
+
+// Close fails if the configuration says so (an injected pacer may fail to close: the estimator must still end up closed).
+func (p *recordingPacer) Close() error {
+	_ = p.NoOpPacer.Close()
+	return p.closeErr
+}
+
+var errPacerClose = errors.New("injected: pacer close failed")
 
 func (p *recordingPacer) SetTargetBitrate(r int) {
 	p.rates = append(p.rates, r)
@@ -93,8 +103,11 @@ func newSystem(c config) (*system, error) {
 	if c.Initial > 0 {
 		opts = append(opts, gcc.SendSideBWEInitialBitrate(c.Initial), gcc.SendSideBWEMinBitrate(c.Min), gcc.SendSideBWEMaxBitrate(c.Max))
 	}
-	if c.Pacer == "recording" {
+	if strings.HasPrefix(c.Pacer, "recording") {
 		sys.pacer = &recordingPacer{NoOpPacer: gcc.NewNoOpPacer()}
+		if c.Pacer == "recording-close-fails" {
+			sys.pacer.closeErr = errPacerClose
+		}
 		opts = append(opts, gcc.SendSideBWEPacer(sys.pacer))
 	}
 	b, err := gcc.NewSendSideBWE(opts...)
@@ -310,14 +323,33 @@ func (sys *system) apply(sym int) (string, error) {
 		vsched.Advance(time.Second)
 	default:
 		sys.closed = true
-		if err := sys.bwe.Close(); err != nil {
+		err := sys.bwe.Close()
+		switch {
+		case sys.pacer != nil && sys.pacer.closeErr != nil:
+			if !errors.Is(err, errPacerClose) {
+				return "", fail("C16:close-error", "Close returned %v, the pacer's Close failed with %v", err, errPacerClose)
+			}
+		case err != nil:
 			return "", fail("C16:close-error", "Close: %v", err)
 		}
 		vsched.Quiesce()
-		err := sys.bwe.WriteRTCP([]rtcp.Packet{&rtcp.TransportLayerCC{}}, nil)
+		err = sys.bwe.WriteRTCP([]rtcp.Packet{&rtcp.TransportLayerCC{}}, nil)
 		if !errors.Is(err, gcc.ErrSendSideBWEClosed) {
 			return "", fail("C16:write-after-close", "WriteRTCP after Close returned %v, want ErrSendSideBWEClosed", err)
 		}
+		// real feedback about what is still unacknowledged must be refused in the same way
+		sys.hold, sys.held = true, nil
+		ferr := sys.feedback(0)
+		sys.hold = false
+		if ferr != nil {
+			return "", ferr
+		}
+		for _, l := range sys.held {
+			if err := sys.bwe.WriteRTCP(l, nil); !errors.Is(err, gcc.ErrSendSideBWEClosed) {
+				return "", fail("C16:write-after-close", "WriteRTCP of feedback after Close returned %v, want ErrSendSideBWEClosed", err)
+			}
+		}
+		sys.held = nil
 		return "c", nil
 	}
 	vsched.Quiesce()
@@ -468,6 +500,10 @@ func configs(tier string) []config {
 		{Initial: 2_000_000, Min: 150_000, Max: 2_500_000, Pacer: "recording", Kind: "ccfb"},
 	}
 	var out []config
+	// an injected pacer whose Close fails: the estimator must be closed all the same
+	for a := 0; a < 3; a++ {
+		out = append(out, config{Initial: 300_000, Min: 200_000, Max: 1_000_000, Pacer: "recording-close-fails", Kind: "twcc", Depth: d - 1, First: a})
+	}
 	for _, c := range base {
 		c.Depth = d
 		for a := 0; a < 3; a++ { // every interesting history starts with a send
